@@ -138,6 +138,34 @@ def eng_timeout(eng):
     return getattr(eng, "timeout_ms", 20000)
 
 
+def second_solver_check(eng, neg, limit_ms=5000):
+    """re-decide `path condition AND NOT obligation` with cvc5 (SMT-LIB2 export of the z3 assertions).
+    Returns 'unsat' | 'sat' | 'unknown' | 'error'."""
+    try:
+        import cvc5
+        s2 = z3.Solver()
+        s2.add(eng.solver.assertions())
+        s2.add(*neg)
+        txt = s2.to_smt2()
+        slv = cvc5.Solver()
+        slv.setOption("tlimit-per", str(limit_ms))
+        slv.setLogic("ALL")
+        prs = cvc5.InputParser(slv)
+        prs.setStringInput(cvc5.InputLanguage.SMT_LIB_2_6, txt, "q")
+        sm = prs.getSymbolManager()
+        ans = "unknown"
+        while True:
+            cmd = prs.nextCommand()
+            if cmd.isNull():
+                break
+            out = str(cmd.invoke(slv, sm)).strip()
+            if out in ("sat", "unsat", "unknown"):
+                ans = out
+        return ans
+    except Exception as e:
+        return "error"
+
+
 def known_class_expr(eng, expr_src):
     """z3 Bool describing the witness class of a known finding, over the path's variables.  expr_src is one
     expression or a list of alternatives; alternatives naming variables that do not exist on this path (e.g. a
@@ -165,7 +193,7 @@ def known_class_expr(eng, expr_src):
 
 
 def explore(case, roots=None, max_paths=10**9, deadline=None, timeout_ms=20000, xval=2, known=(), seed=0,
-            stop_on_violation=False, labels=None):
+            stop_on_violation=False, labels=None, second_solver_every=0):
     """Explore the subtrees below the given decision prefixes.
     Returns a JSON-able result dict; 'leftover' holds unexplored prefixes when max_paths/deadline hit."""
     t0 = time.time()
@@ -250,6 +278,11 @@ def explore(case, roots=None, max_paths=10**9, deadline=None, timeout_ms=20000, 
                 if rr == z3.unsat:
                     res["discharged"] += 1
                     L["discharged"] += 1
+                    if second_solver_every and (res["discharged"] - 1) % second_solver_every == 0:
+                        a2 = second_solver_check(eng, neg)
+                        res["second_solver_" + a2] = res.get("second_solver_" + a2, 0) + 1
+                        if a2 == "sat":
+                            res.setdefault("second_solver_disagreements", []).append(dict(label=label, tag=tag))
                     continue
                 if rr == z3.unknown:
                     res["unknown"] += 1
@@ -381,7 +414,8 @@ def explore(case, roots=None, max_paths=10**9, deadline=None, timeout_ms=20000, 
 def merge(a, b):
     """merge result b into a"""
     for k in ("paths", "feasible", "infeasible", "queries", "solver_s", "unknown", "aborted", "ob_queries", "discharged",
-              "trivially_true", "xval_ok", "forks", "wall_s", "xval_uf_skipped", "known_unreplayed", "xval_skipped_no_float_safe_model"):
+              "trivially_true", "xval_ok", "forks", "wall_s", "xval_uf_skipped", "known_unreplayed", "xval_skipped_no_float_safe_model",
+              "second_solver_unsat", "second_solver_sat", "second_solver_unknown", "second_solver_error"):
         a[k] = a.get(k, 0) + b.get(k, 0)
     for k in ("abort_reasons", "tags", "exceptions"):
         d = a.setdefault(k, {})
@@ -392,7 +426,7 @@ def merge(a, b):
         t = la.setdefault(l, dict(reached=0, discharged=0, violated=0))
         for kk in t:
             t[kk] += d[kk]
-    for k in ("violations", "known_hits", "spurious", "xval_fail"):
+    for k in ("violations", "known_hits", "spurious", "xval_fail", "second_solver_disagreements"):
         a.setdefault(k, []).extend(b.get(k, []))
     s = a.setdefault("samples", [])
     if len(s) < 4:
